@@ -182,9 +182,10 @@ Definition flatten (ds : dependencies) : list reqver :=
 
 Definition is_npm_bundle (name : bytes) : bool := contains_byte c_gt name.
 
-(* fmt.Sprintf("%s>%s>%s", root.Name, root.Version, strings.Join(pkgs, ">")) *)
-Definition mangled_name (root : vkey) (pkgs : list bytes) : bytes :=
-  vk_name root ++ c_gt :: vk_version root ++ c_gt :: join_with [c_gt] pkgs.
+(* fmt.Sprintf("%s>%s>%s", root.Name, root.Version, strings.Join(pkgs, ">")).
+   Only the name [n] and the version [v] of the root are used. *)
+Definition mangled_name (n v : bytes) (pkgs : list bytes) : bytes :=
+  n ++ c_gt :: v ++ c_gt :: join_with [c_gt] pkgs.
 
 Definition s_node_modules_slash : bytes := [110;111;100;101;95;109;111;100;117;108;101;115;47].
 Definition s_slash_node_modules_slash : bytes := 47 :: s_node_modules_slash.
@@ -211,33 +212,41 @@ Fixpoint al_set {A} (k : bytes) (v : A) (l : list (bytes * A)) : list (bytes * A
   | (k', v') :: r => if bytes_eqb k k' then (k, v) :: r else (k', v') :: al_set k v r
   end.
 
-Definition bundle_parent (root : vkey) (pkgs : list bytes) : bytes :=
-  if (1 <? length pkgs)%nat then mangled_name root (removelast pkgs) else vk_name root.
+(* the mangled name of a bundle entry, and the name of the entry that bundles it *)
+Definition bundle_name (n v : bytes) (b : bundle) : bytes := mangled_name n v (path_pkgs (b_path b)).
+
+Definition parent_of_pkgs (n v : bytes) (pkgs : list bytes) : bytes :=
+  if (1 <? length pkgs)%nat then mangled_name n v (removelast pkgs) else n.
+
+Definition bundle_parent (n v : bytes) (b : bundle) : bytes := parent_of_pkgs n v (path_pkgs (b_path b)).
+
+(* the requirement added to the bundling parent *)
+Definition bundle_req (n v : bytes) (b : bundle) : reqver :=
+  RV (VK (bundle_name n v b) Requirement (b_version b)) dt_regular.
 
 (* the body of the loop over reqs.Bundled *)
-Definition process_bundle (root : vkey) (acc : res (list (bytes * bentry))) (b : bundle)
+Definition process_bundle (n v : bytes) (acc : res (list (bytes * bentry))) (b : bundle)
   : res (list (bytes * bentry)) :=
   all <- acc ;;
-  let pkgs := path_pkgs (b_path b) in
-  let mangled := mangled_name root pkgs in
+  let mangled := bundle_name n v b in
   let all1 := al_set mangled (BE (VK mangled Concrete (b_version b)) (b_name b) (flatten (b_deps b))) all in
-  let parent := bundle_parent root pkgs in
-  match al_get parent all1 with
+  match al_get (bundle_parent n v b) all1 with
   | None => Err EInternal
   | Some pb =>
-      Ok (al_set parent
-            (BE (be_vk pb) (be_orig pb)
-                (be_deps pb ++ [RV (VK mangled Requirement (b_version b)) dt_regular]))
+      Ok (al_set (bundle_parent n v b)
+            (BE (be_vk pb) (be_orig pb) (be_deps pb ++ [bundle_req n v b]))
             all1)
   end.
 
 (* sort.Slice(reqs.Bundled, by len(Path)) *)
 Definition path_shorter (a b : bundle) : bool := (length (b_path a) <? length (b_path b))%nat.
 
-Definition all_deps (root : vkey) (r : npm_reqs) : res (list (bytes * bentry)) :=
-  fold_left (process_bundle root)
+(* allDeps after the loop. The entry of the root holds the caller's version key in Go; it is never
+   read back (only its dependencies are), so the model stores a normalised key there. *)
+Definition all_deps (n v : bytes) (r : npm_reqs) : res (list (bytes * bentry)) :=
+  fold_left (process_bundle n v)
             (insertion_sort path_shorter (nr_bundled r))
-            (Ok [(vk_name root, BE root [] (flatten (nr_deps r)))]).
+            (Ok [(n, BE (VK n Concrete v) [] (flatten (nr_deps r)))]).
 
 (* an entry of APIClient.bundledVersions *)
 Record bundled := BV { bv_version : version; bv_reqs : list reqver }.
@@ -246,9 +255,9 @@ Definition to_bundled (e : bentry) : bundled :=
   BV (V (be_vk e) None (Some (be_orig e))) (be_deps e).
 
 (* the entries npmRequirements stores: everything in allDeps except the root itself *)
-Definition writes_of_all (root : vkey) (all : list (bytes * bentry)) : list (bytes * bundled) :=
+Definition writes_of_all (n : bytes) (all : list (bytes * bentry)) : list (bytes * bundled) :=
   map (fun kv => (fst kv, to_bundled (snd kv)))
-      (filter (fun kv => negb (bytes_eqb (fst kv) (vk_name root))) all).
+      (filter (fun kv => negb (bytes_eqb (fst kv) n)) all).
 
 Definition state := list (bytes * bundled).
 
@@ -256,18 +265,41 @@ Definition apply_writes (w : list (bytes * bundled)) (st : state) : state :=
   fold_left (fun s kv => al_set (fst kv) (snd kv) s) w st.
 
 (* npmRequirements: the requirements of the root, and the new bundledVersions *)
-Definition npm_requirements (st : state) (root : vkey) (r : npm_reqs) : res (list reqver) * state :=
-  match all_deps root r with
+Definition npm_requirements (st : state) (n v : bytes) (r : npm_reqs) : res (list reqver) * state :=
+  match all_deps n v r with
   | Ok all =>
-      (match al_get (vk_name root) all with
+      (match al_get n all with
        | Some e => Ok (be_deps e)
        | None => Ok []                      (* Go: zero value of a missing map entry *)
        end,
-       apply_writes (writes_of_all root all) st)
+       apply_writes (writes_of_all n all) st)
   | Err e => (Err e, st)
   | Panic p => (Panic p, st)
   | OutOfFuel => (OutOfFuel, st)
   end.
+
+(* ------------------------------------------------------------------ vocabulary of the statements *)
+
+(* the requirements a bundling parent [k] gets for the entries it bundles directly *)
+Definition child_reqs (n v : bytes) (k : bytes) (bs : list bundle) : list reqver :=
+  map (bundle_req n v) (filter (fun c => bytes_eqb (bundle_parent n v c) k) bs).
+
+Fixpoint nodup_b (l : list bytes) : bool :=
+  match l with
+  | [] => true
+  | x :: r => negb (existsb (bytes_eqb x) r) && nodup_b r
+  end.
+
+(* A well-formed bundle tree, as a file system produces it: no two entries at one path, and the
+   enclosing bundle of a nested entry is listed too (its path is then strictly shorter). *)
+Definition wf_reqs (n v : bytes) (r : npm_reqs) : bool :=
+  nodup_b (map (bundle_name n v) (nr_bundled r)) &&
+  forallb (fun b =>
+             (length (path_pkgs (b_path b)) <=? 1)%nat ||
+             existsb (fun p => bytes_eqb (bundle_name n v p) (bundle_parent n v b) &&
+                               (length (b_path p) <? length (b_path b))%nat)
+                     (nr_bundled r))
+          (nr_bundled r).
 
 (* ------------------------------------------------------------------ the four calls *)
 
@@ -308,7 +340,7 @@ Section Client.
       end
     else
       match get_requirements svc (vk_name vk) (vk_version vk) with
-      | Ok r => npm_requirements st vk r
+      | Ok r => npm_requirements st (vk_name vk) (vk_version vk) r
       | Err e => (Err e, st)
       | Panic p => (Panic p, st)
       | OutOfFuel => (OutOfFuel, st)
@@ -427,8 +459,8 @@ Section Client.
      Requirements of its root would store. *)
   Definition root_writes (n v : bytes) : list (bytes * bundled) :=
     match get_requirements svc n v with
-    | Ok r => match all_deps (VK n Concrete v) r with
-              | Ok all => writes_of_all (VK n Concrete v) all
+    | Ok r => match all_deps n v r with
+              | Ok all => writes_of_all n all
               | _ => []
               end
     | _ => []
